@@ -30,7 +30,7 @@ CLAIMS = {
                 'filters `[?(!@ inner)]` (NegFilt.v) keep the members from which inner reaches nothing; filters over a query in disjunctive form '
                 '`[?(b&&b||b&&b...)]` (QueryParse.v, QueryAddr.v, LitParse.v; every b an existence test, its negation, a number comparison or == / != against a plain string, boolean or null literal; no blanks) keep the members for which some conjunction '
                 'has all its basic queries true; a basic query may also look at the document (RootOp.v): `$ steps`, `!$ steps` and `@ inner OP $ steps` (orderings; == and != by deep equality, with the both-absent rule when the `$` path reaches nothing — the one verdict that depends on all the members offered together), true for every member / compared with what the `$` path reaches. '
-                'A comparison, existence or negated existence step may be written with blanks after `?(`, around the operator, after `!` and before `)` (CmpSpace.v, FiltSpace.v; FCS, FES: `[?( @.a >= 2 )]`, `[?( ! @.a )]`). A query in disjunctive form made of existence tests, negations and comparisons with numbers may be written with blanks after `?(`, `!`, around operators, after every basic query and after every `&&` and `||` (QuerySpace.v; FQS: `[?( @.a>1 &&  @.b || ! @.c )]` selects as the unspaced query does). String literals may contain the grammar's escapes and stray backslashes (LitParse.v sbody_ok: the value is the unescaped text). A comparison with a literal may have the literal on the left (LitLeft.v; BCL: `2<=@.a` selects as `@.a>=2`; BLL: `'x'==@.a`, `null!=@.a`; BRL: `$.min<@.a`, `$.x==@.a`). Sub-queries may be parenthesised (QueryTree.v; FT: `[?((@.a||@.b)&&!@.c)]` — any tree of `&&`, `||` and parentheses over the basic queries, written without blanks). A filter may follow `..` (FR: applied to every container below and including the value, in pre-order). Regular-expression tests `@ inner=~/body/` (RegexOp.v; body without `/`, a backslash not before `/` or `\\`) keep the members whose value is a string the expression matches (regexp, a parameter of the model). Not a theorem for the other step kinds (negated comparisons, blanks in the other filter forms, multi-name selectors, scripts): which AST a given text denotes (parser model vs '
+                'A comparison, existence or negated existence step may be written with blanks after `?(`, around the operator, after `!` and before `)` (CmpSpace.v, FiltSpace.v; FCS, FES: `[?( @.a >= 2 )]`, `[?( ! @.a )]`). A query in disjunctive form made of existence tests, negations and comparisons with numbers may be written with blanks after `?(`, `!`, around operators, after every basic query and after every `&&` and `||` (QuerySpace.v; FQS: `[?( @.a>1 &&  @.b || ! @.c )]` selects as the unspaced query does). String literals may contain the grammar\'s escapes and stray backslashes (LitParse.v sbody_ok: the value is the unescaped text). A comparison with a literal may have the literal on the left (LitLeft.v; BCL: `2<=@.a` selects as `@.a>=2`; BLL: `\'x\'==@.a`, `null!=@.a`; BRL: `$.min<@.a`, `$.x==@.a`). Sub-queries may be parenthesised (QueryTree.v; FT: `[?((@.a||@.b)&&!@.c)]` — any tree of `&&`, `||` and parentheses over the basic queries, written without blanks). A filter may follow `..` (FR: applied to every container below and including the value, in pre-order). Regular-expression tests `@ inner=~/body/` (RegexOp.v; body without `/`, a backslash not before `/` or `\\`) keep the members whose value is a string the expression matches (regexp, a parameter of the model). Not a theorem for the other step kinds (negated comparisons, blanks in the other filter forms, multi-name selectors, scripts): which AST a given text denotes (parser model vs '
                 'real parser by tree dumps and through the API). Correspondence: generated paths x documents; the extracted '
                 'specification runs next to the model on every case (a model/spec difference is reported).',
         'note': NOTE_COMMON + EVAL_HYP + ' The specification states the library conventions explicitly (whole-match $ operands, both-absent rule of path == path).',
@@ -178,7 +178,7 @@ CLAIMS = {
                 'values the steps reach (or the elements of the array a single-valued path reaches), never when they reach nothing, its result '
                 'is the single result and the filter functions after it apply left to right; C14_functions_after_filters_from_text (FiltFun.v): '
                 'the steps before the functions may be filters of every kind FiltChain covers (results g(f(v)) over the values the steps and '
-                'filters reach; C14_calls_after_filters_from_text: the call log is exactly those calls, the filters calling nothing; C14_aggregate_after_filters_from_text (FiltAgg.v): an aggregate after steps and filters receives all the values they reach, once; C14_aggregate_calls_after_filters_from_text: its call log); the harness sends such texts '
+                'filters reach; C14_calls_after_filters_from_text: the call log is exactly those calls, the filters calling nothing; C14_aggregate_after_filters_from_text (FiltAgg.v): an aggregate after steps and filters receives all the values they reach, once; C14_aggregate_calls_after_filters_from_text: its call log; C14_functions_without_dollar_from_text / C14_aggregate_without_dollar_from_text (NoDollarFun.v, NoDollarAgg.v): the same results when the leading $ is omitted); the harness sends such texts '
                 '(the driver confirms they are Coq chain_fun_path) with calls and results expected from walking the document. The driver also '
                 'compares the model call log with the specification call log on every generated case. Functions inside filter operands '
                 '(short-circuited by design) are outside the theorem and compared with the model call by call; direct protocol oracle '
@@ -225,7 +225,7 @@ CLAIMS = {
         'text': 'PARTIAL. Proved: what a path selects does not depend on the text/connected-text fields of its nodes '
                 '(C18_values_text_independent, on the specification), so spellings parsed to trees equal up to texts select the same '
                 'values; lexical facts: `space` eats exactly the blanks and emits nothing, + sign and leading zeros do not change an '
-                'integer, quote styles name the same key, `.*`/`[*]` run the same action. FROM THE PATH TEXT: for every non-empty name without control characters $["name"], $[\'name\'] and $.name are accepted and return the same results on every object or all fail (C18_name_spellings_agree). C18_dollar_optional: for every path of name / index / wildcard / slice steps (each after the first possibly after `..`) the text without its leading $ is accepted and returns the same results as the text with it, or both fail; C18_outer_spaces_same_tree: with any number of blanks before and after, Parse returns the very same tree. C18_dollar_optional_before_filters: the same when filters of every kind FiltChain covers follow the first step (NoDollarFilt.v). C18_outer_spaces_same_tree_with_filters: blanks around a path with filters give the very same tree. C18_equivalent_spellings_from_text (SpellText.v): two paths of steps and filters whose steps MEAN the same (navigate alike from every value) are both accepted and return the same results or both fail, with C18_spellings_that_mean_the_same: .name / [\'name\'] / ["name"], .* / [*], indexes and slice bounds with leading zeros or a plus sign (the number written), respelled filter operands, number literals denoting the same float, blanks inside comparison and existence filters, the same after `..`. Not proved: respellings inside the step kinds outside the text theorems (escapes, blanks inside brackets, multi-name selectors) '
+                'integer, quote styles name the same key, `.*`/`[*]` run the same action. FROM THE PATH TEXT: for every non-empty name without control characters $["name"], $[\'name\'] and $.name are accepted and return the same results on every object or all fail (C18_name_spellings_agree). C18_dollar_optional: for every path of name / index / wildcard / slice steps (each after the first possibly after `..`) the text without its leading $ is accepted and returns the same results as the text with it, or both fail; C18_outer_spaces_same_tree: with any number of blanks before and after, Parse returns the very same tree. C18_dollar_optional_before_filters: the same when filters of every kind FiltChain covers follow the first step (NoDollarFilt.v). C18_outer_spaces_same_tree_with_filters: blanks around a path with filters give the very same tree. C18_dollar_optional_before_functions / C18_dollar_optional_before_aggregates (NoDollarFun.v, NoDollarAgg.v): the same when filter functions, or an aggregate and filter functions, follow the steps and filters. C18_outer_spaces_same_tree_with_functions (PadFun.v): blanks around a path with function calls of both kinds give the very same tree. C18_equivalent_spellings_from_text (SpellText.v): two paths of steps and filters whose steps MEAN the same (navigate alike from every value) are both accepted and return the same results or both fail, with C18_spellings_that_mean_the_same: .name / [\'name\'] / ["name"], .* / [*], indexes and slice bounds with leading zeros or a plus sign (the number written), respelled filter operands, number literals denoting the same float, blanks inside comparison and existence filters, the same after `..`. Not proved: respellings inside the step kinds outside the text theorems (escapes, blanks inside brackets, multi-name selectors) '
                 'and the same-error-step half. Tie: every generated AST in 2..6 spellings must agree on the real '
                 'library and with the model.',
         'note': NOTE_COMMON, 'technique': 'Coq proof on the specification + lexical lemmas on the regenerated grammar + spelling-group oracle'},
